@@ -342,17 +342,18 @@ void ThreadPool::threadProc(ThreadToken thread_token)
 
             item = popOneTask();    //! 从任务队列中取出优先级最高的任务
             CPP_TBOX_VERIF_POINT("tp.w.pop", thread_token.id(), (item != nullptr) ? item->token.id() : 0);
+
+            //! 在同一个临界区内登记为"正在执行"，保证任务在任何时刻都能被 getTaskStatus() 与 cancel() 查到
+            if (item != nullptr) {
+                d_->doing_tasks_token.insert(item->token);
+                CPP_TBOX_VERIF_POINT("tp.w.mark", thread_token.id(), item->token.id());
+            }
         }
         CPP_TBOX_VERIF_POINT("tp.w.unlocked", thread_token.id(), 0);
 
         //! 后面就是去执行任务，不需要再加锁了
         if (item != nullptr) {
             RECORD_SCOPE();
-            {
-                std::lock_guard<std::mutex> lg(d_->lock);
-                d_->doing_tasks_token.insert(item->token);
-                CPP_TBOX_VERIF_POINT("tp.w.mark", thread_token.id(), item->token.id());
-            }
             CPP_TBOX_VERIF_POINT("tp.w.body_begin", thread_token.id(), item->token.id());
 
             LogDbg("thread %u pick task %u", thread_token.id(), item->token.id());
